@@ -303,6 +303,17 @@ _ADDED4 = {
     "C18": " The bisection over the slope terminates for unsatisfiable requests: the loop leaves when the midpoint equals an end of the bracket (B2t), so the failure "
            "is reported by the ValueError after the loop (defect 14, repaired).",
 }
+_ADDED5 = {
+    "C01": " The helpers that choose the sum axes of the Multiply / MatMul adjoints return exactly the broadcast axes of the input on a finite family of concrete "
+           "shape pairs (ranks 0-2, and 2 against 3, extents {1, 3}; all rank-3 shapes in the thorough tier), decided by constant folding of the helpers' own "
+           "source with loops unrolled (A3c: bounded exhaustive, nothing is executed).",
+    "C15": " NewtonsMethod._update equals its documented form path by path: a negative Newton decrement raises on every path, and the step is the backtracked "
+           "Newton direction (T8).",
+    "C19": " abrm's rewinder for balanced sequences precesses by minus half of the total gradient area applied during the pulse (Q8), and no simulator rebinds or "
+           "writes its data arguments rf, g, x, y (Q9: the time loop indexes the layout the caller gave).",
+}
+for _k, _v in _ADDED5.items():
+    _ADDED4[_k] = _ADDED4.get(_k, "") + _v
 for _k, _v in _ADDED4.items():
     _ADDED3[_k] = _ADDED3.get(_k, "") + _v
 for _k, _v in _ADDED3.items():
